@@ -2,7 +2,7 @@ ENGINES = [
     {"name": "csym", "path": "vt/csym.py", "serves_properties": ["C01", "C02", "C03", "C13", "C18"],
      "kind_free_text": "symbolic interpreter of traits/ctraits.c over clang's JSON AST (regenerated from the current source on every run), "
                        "CPython API contracts in vt/capi.py, shared path condition with symx; memory-safety assertions on every path"},
-    {"name": "symx", "path": "vt/symx.py", "serves_properties": ["C01", "C03", "C04", "C05", "C06", "C07", "C13", "C20"],
+    {"name": "symx", "path": "vt/symx.py", "serves_properties": ["C01", "C03", "C04", "C05", "C06", "C07", "C13", "C15", "C20"],
      "kind_free_text": "symbolic execution of the real Python code on z3-backed proxies (DFS over decision prefixes by re-execution), "
                        "environment models for built-ins (vt/envmodels.py), concrete replay of every counterexample and one witness per path"},
 ]
@@ -124,4 +124,16 @@ CHECKS["C20"] = dict(
     note="Trusted: z3, ListModel/MSlice environment models (self-tested), compiled Int validator and trait_items_event run concretely. "
          "Scalar histories: solver contributes choice feasibility only. Outside: more than two partners, chains of synchronised objects, "
          "non-list containers, threads.")
+CHECKS["C15"] = dict(
+    text="Token level, solver-decided: the LALR tables of the current _generated_parser.py are interpreted (shift/reduce/goto as lark's "
+         "feed_token) on a symbolic token sequence of symbolic length <= L (6 quick, 8 thorough); each path is one viable-prefix class. "
+         "Reference: a bounded CYK-style z3 formula of the grammar written from the user manual. Accepting path: z3 proves the reference "
+         "accepts; rejecting path: z3 proves that no completion (any remaining tokens, any length <= L) is accepted by the reference. "
+         "Text level (one rendered witness per path, two spellings: sampling): real parse() acceptance, denotation of the graphs "
+         "(path set, notify iff last or followed by '.', items = 4 optional alternatives), parse twice / other whitespace / extra "
+         "brackets give equal patterns, compile_str succeeds.",
+    design_ref="DESIGN.md section 4 C15", technique="symbolic execution of an interpreter of the generated LALR tables against a bounded-CYK z3 formula; witnesses replayed through the real parser",
+    note="Trusted: the reference grammar (props/c15.py, from the manual), the 50-line table driver. The character-level lexer, whitespace and "
+         "NAME spellings are covered only through rendered witnesses (sampling, seeded by VERIF_SEED). Two known findings (star inside "
+         "brackets; duplicate parallel branches fail to compile). Outside: sequences longer than L, inequality of different patterns.")
 NOT_APPLICABLE = {p: NOT_BUILT for p in ["C%02d" % i for i in range(1, 21)]}
